@@ -8,6 +8,9 @@
     5. visit_complete        every record reachable through association fields is saved
     6. visit_sound           every saved record is reachable (needs nbefore ≤ nslots)
     +  concrete counterexamples (mixed batch, back-pointer, duplicate) and a positive diamond
+    7. the repairs (VFix): a repaired guard makes its pattern flag constantly true (F27 filter -> cleanMixed, F28 root
+       -> cleanRoot, F27 filter or F29 distinct -> cleanDup); with filter + root every record exactly once
+    8. conservativity: on a graph on which the unrepaired traversal is clean every repaired traversal has the SAME log
 
   Core Lean only.
 -/
@@ -31,16 +34,34 @@ def visitG4 : VGraph :=
   { size := 2, nbefore := 1, nslots := 3, adj := [[[],[],[1,1]], []], dedupe := [true,true,true] }
 
 theorem visit_diamond_example :
-    (visitG1.run [0] []).clean = true ∧ saveCount 2 (visitG1.run [0] []).log = 1 := by decide
+    (visitG1.run {} [0] []).clean = true ∧ saveCount 2 (visitG1.run {} [0] []).log = 1 := by decide
 
 theorem visit_mixed_counterexample :
-    saveCount 2 (visitG2.run [0] []).log = 2 ∧ (visitG2.run [0] []).clean = false := by decide
+    saveCount 2 (visitG2.run {} [0] []).log = 2 ∧ (visitG2.run {} [0] []).clean = false := by decide
 
 theorem visit_backpointer_counterexample :
-    saveCount 0 (visitG3.run [0] []).log = 2 ∧ (visitG3.run [0] []).clean = false := by decide
+    saveCount 0 (visitG3.run {} [0] []).log = 2 ∧ (visitG3.run {} [0] []).clean = false := by decide
 
 theorem visit_duplicate_counterexample :
-    saveCount 1 (visitG4.run [0] []).log = 2 ∧ (visitG4.run [0] []).clean = false := by decide
+    saveCount 1 (visitG4.run {} [0] []).log = 2 ∧ (visitG4.run {} [0] []).clean = false := by decide
+
+/-- each witness keeps failing as long as ITS repair is missing, whatever the other two flags are -/
+theorem visit_mixed_needs_filter (r d : Bool) :
+    saveCount 2 (visitG2.run { filter := false, root := r, distinct := d } [0] []).log = 2 := by
+  cases r <;> cases d <;> decide
+
+theorem visit_backpointer_needs_root (f d : Bool) :
+    saveCount 0 (visitG3.run { filter := f, root := false, distinct := d } [0] []).log = 2 := by
+  cases f <;> cases d <;> decide
+
+theorem visit_duplicate_needs_filter_or_distinct (r : Bool) :
+    saveCount 1 (visitG4.run { filter := false, root := r, distinct := false } [0] []).log = 2 := by
+  cases r <;> decide
+
+/-- ... and is saved exactly once by the fully repaired traversal -/
+theorem visit_witnesses_repaired :
+    saveCount 2 (visitG2.run ⟨true, true, true⟩ [0] []).log = 1 ∧ saveCount 0 (visitG3.run ⟨true, true, true⟩ [0] []).log = 1 ∧
+    saveCount 1 (visitG4.run ⟨true, true, true⟩ [0] []).log = 1 := by decide
 
 /-! ## 1. loadOrStore / checkSaved -/
 
@@ -120,31 +141,276 @@ theorem vfoldl_back {α β : Type} (Q : β → Prop) (f : β → α → β) (l :
     simp only [List.foldl_cons]
     exact fun hq => h b a (ih _ hq)
 
+
+/-! ## the repaired guard: checkSavedR / filterSaved / distinctPtr -/
+
+theorem mem_visitBase (rf : Bool) (own : List Nat) (v : Option (List Nat)) (x : Nat) :
+    x ∈ visitBase rf own v ↔ x ∈ v.getD [] ∨ (v = none ∧ rf = true ∧ x ∈ own) := by
+  cases v with
+  | some V => simp [visitBase]
+  | none => cases rf <;> simp [visitBase]
+
+theorem visited_sub_base (rf : Bool) (own : List Nat) (v : Option (List Nat)) (x : Nat) :
+    x ∈ v.getD [] → x ∈ visitBase rf own v := fun h => (mem_visitBase rf own v x).2 (Or.inl h)
+
+theorem all_contains_congr (l A B : List Nat) (h : ∀ x, x ∈ A ↔ x ∈ B) :
+    l.all (fun e => A.contains e) = l.all (fun e => B.contains e) := by
+  induction l with
+  | nil => rfl
+  | cons x l ih =>
+    simp only [List.all_cons, ih]
+    congr 1
+    have := h x
+    by_cases hx : x ∈ A
+    · simp [hx, this.1 hx]
+    · have hb : x ∉ B := fun hb => hx (this.2 hb)
+      simp [hx, hb]
+
+theorem checkSavedR_loaded (rf : Bool) (own es : List Nat) (v : Option (List Nat)) (hne : es ≠ []) :
+    (checkSavedR rf own es v).1 = es.all (fun e => (visitBase rf own v).contains e) := by
+  cases v with
+  | some V => simp [checkSavedR, visitBase, checkSaved, loadOrStore_loaded]
+  | none =>
+    cases rf with
+    | false => simpa [checkSavedR, visitBase] using checkSaved_loaded es none hne
+    | true =>
+      simp only [checkSavedR, visitBase, if_true, loadOrStore_loaded]
+      exact all_contains_congr es _ _ (fun x => by simp [loadOrStore_mem])
+
+theorem checkSavedR_mem (rf : Bool) (own es : List Nat) (v : Option (List Nat)) (x : Nat) :
+    x ∈ (checkSavedR rf own es v).2.getD [] ↔ x ∈ es ∨ x ∈ visitBase rf own v := by
+  cases v with
+  | some V => simp [checkSavedR, visitBase, checkSaved, loadOrStore_mem]
+  | none =>
+    cases rf with
+    | false => simp [checkSavedR, visitBase, checkSaved, loadOrStore_mem]
+    | true => simp [checkSavedR, visitBase, loadOrStore_mem]
+
+theorem checkSavedR_isSome (rf : Bool) (own es : List Nat) (v : Option (List Nat)) :
+    (checkSavedR rf own es v).2.isSome = true := by
+  cases v with
+  | some V => simp [checkSavedR, checkSaved]
+  | none => cases rf <;> simp [checkSavedR, checkSaved]
+
+/-- the element-wise loop once a map exists -/
+theorem filterSaved_some (rf : Bool) (own : List Nat) (es V : List Nat) :
+    ∃ V', (filterSaved rf own es (some V)).2 = some V' ∧ (∀ x, x ∈ V' ↔ x ∈ es ∨ x ∈ V) ∧
+      (∀ x, x ∈ (filterSaved rf own es (some V)).1 ↔ x ∈ es ∧ x ∉ V) ∧
+      (filterSaved rf own es (some V)).1.Nodup := by
+  induction es generalizing V with
+  | nil => exact ⟨V, rfl, by simp, by simp [filterSaved], by simp [filterSaved]⟩
+  | cons e rest ih =>
+    have hstep : checkSavedR rf own [e] (some V) = (V.contains e, some (if V.contains e then V else e :: V)) := by
+      simp [checkSavedR, checkSaved, loadOrStore]
+    obtain ⟨V', h1, h2, h3, h4⟩ := ih (if V.contains e then V else e :: V)
+    simp only [filterSaved, hstep]
+    refine ⟨V', h1, ?_, ?_, ?_⟩
+    · intro x
+      rw [h2]
+      by_cases he : e ∈ V
+      · simp only [List.contains_eq_mem, he, decide_true, if_true, List.mem_cons]
+        constructor
+        · rintro (h | h)
+          · exact Or.inl (Or.inr h)
+          · exact Or.inr h
+        · rintro ((h | h) | h)
+          · subst h; exact Or.inr he
+          · exact Or.inl h
+          · exact Or.inr h
+      · simp only [List.contains_eq_mem, he, decide_false, Bool.false_eq_true, if_false, List.mem_cons]
+        constructor
+        · rintro (h | h | h)
+          · exact Or.inl (Or.inr h)
+          · exact Or.inl (Or.inl h)
+          · exact Or.inr h
+        · rintro ((h | h) | h)
+          · exact Or.inr (Or.inl h)
+          · exact Or.inl h
+          · exact Or.inr (Or.inr h)
+    · intro x
+      by_cases he : e ∈ V
+      · simp only [List.contains_eq_mem, he, decide_true, if_true] at h3 ⊢
+        rw [h3]
+        simp only [List.mem_cons]
+        constructor
+        · rintro ⟨h, h'⟩; exact ⟨Or.inr h, h'⟩
+        · rintro ⟨h | h, h'⟩
+          · subst h; exact absurd he h'
+          · exact ⟨h, h'⟩
+      · simp only [List.contains_eq_mem, he, decide_false, Bool.false_eq_true, if_false, List.mem_cons] at h3 ⊢
+        rw [h3]
+        constructor
+        · rintro (h | ⟨h, h'⟩)
+          · subst h; exact ⟨Or.inl rfl, he⟩
+          · exact ⟨Or.inr h, fun hv => h' (Or.inr hv)⟩
+        · rintro ⟨h | h, h'⟩
+          · exact Or.inl h
+          · by_cases hxe : x = e
+            · exact Or.inl hxe
+            · exact Or.inr ⟨h, fun hv => hv.elim hxe h'⟩
+    · by_cases he : e ∈ V
+      · simpa only [List.contains_eq_mem, he, decide_true, if_true] using h4
+      · simp only [List.contains_eq_mem, he, decide_false, Bool.false_eq_true, if_false] at h3 h4 ⊢
+        refine List.nodup_cons.2 ⟨?_, h4⟩
+        intro hmem
+        exact ((h3 e).1 hmem).2 (List.mem_cons_self)
+
+/-- the element-wise loop of the repaired guard, map or no map -/
+theorem filterSaved_spec (rf : Bool) (own es : List Nat) (v : Option (List Nat)) (hne : es ≠ []) :
+    (filterSaved rf own es v).2.isSome = true ∧
+    (∀ x, x ∈ (filterSaved rf own es v).2.getD [] ↔ x ∈ es ∨ x ∈ visitBase rf own v) ∧
+    (∀ x, x ∈ (filterSaved rf own es v).1 ↔ x ∈ es ∧ x ∉ visitBase rf own v) ∧
+    (filterSaved rf own es v).1.Nodup := by
+  cases v with
+  | some V =>
+    obtain ⟨V', h1, h2, h3, h4⟩ := filterSaved_some rf own es V
+    refine ⟨by simp [h1], ?_, by simpa [visitBase] using h3, h4⟩
+    intro x; simp [h1, h2, visitBase]
+  | none =>
+    cases es with
+    | nil => exact absurd rfl hne
+    | cons e rest =>
+      -- the first look-up creates the map
+      have hsome := checkSavedR_isSome rf own [e] none
+      have hmem := fun x => checkSavedR_mem rf own [e] none x
+      have hld := checkSavedR_loaded rf own [e] none (by simp)
+      cases hc : checkSavedR rf own [e] none with
+      | mk ld v1 =>
+        rw [hc] at hsome hmem hld
+        cases v1 with
+        | none => simp at hsome
+        | some V1 =>
+          obtain ⟨V', h1, h2, h3, h4⟩ := filterSaved_some rf own rest V1
+          simp only [filterSaved, hc]
+          replace hmem : ∀ x, x ∈ V1 ↔ x = e ∨ x ∈ visitBase rf own none := fun x => by simpa using hmem x
+          simp only [List.all_cons, List.all_nil, Bool.and_true, List.contains_eq_mem] at hld
+          refine ⟨by simp [h1], ?_, ?_, ?_⟩
+          · intro x
+            simp only [h1, Option.getD_some, h2, hmem, List.mem_cons]
+            constructor
+            · rintro (h | h | h)
+              · exact Or.inl (Or.inr h)
+              · exact Or.inl (Or.inl h)
+              · exact Or.inr h
+            · rintro ((h | h) | h)
+              · exact Or.inr (Or.inl h)
+              · exact Or.inl h
+              · exact Or.inr (Or.inr h)
+          · intro x
+            by_cases he : e ∈ visitBase rf own none
+            · have : ld = true := by simpa [he] using hld
+              subst this
+              simp only [if_true, h3, hmem, List.mem_cons]
+              constructor
+              · rintro ⟨h, h'⟩; exact ⟨Or.inr h, fun hb => h' (Or.inr hb)⟩
+              · rintro ⟨h | h, h'⟩
+                · subst h; exact absurd he h'
+                · refine ⟨h, fun hv => hv.elim (fun hxe => ?_) h'⟩
+                  subst hxe; exact h' he
+            · have : ld = false := by simpa [he] using hld
+              subst this
+              simp only [Bool.false_eq_true, if_false, List.mem_cons, h3, hmem]
+              constructor
+              · rintro (h | ⟨h, h'⟩)
+                · subst h; exact ⟨Or.inl rfl, he⟩
+                · exact ⟨Or.inr h, fun hb => h' (Or.inr hb)⟩
+              · rintro ⟨h | h, h'⟩
+                · exact Or.inl h
+                · by_cases hxe : x = e
+                  · exact Or.inl hxe
+                  · exact Or.inr ⟨h, fun hv => hv.elim hxe h'⟩
+          · by_cases he : e ∈ visitBase rf own none
+            · have : ld = true := by simpa [he] using hld
+              subst this
+              simpa using h4
+            · have : ld = false := by simpa [he] using hld
+              subst this
+              simp only [Bool.false_eq_true, if_false]
+              refine List.nodup_cons.2 ⟨?_, h4⟩
+              intro hm
+              exact ((h3 e).1 hm).2 ((hmem e).2 (Or.inl rfl))
+
+theorem distinctPtr_mem (l seen : List Nat) (x : Nat) : x ∈ distinctPtr l seen ↔ x ∈ l ∧ x ∉ seen := by
+  induction l generalizing seen with
+  | nil => simp [distinctPtr]
+  | cons e rest ih =>
+    simp only [distinctPtr]
+    by_cases he : e ∈ seen
+    · simp only [List.contains_eq_mem, he, decide_true, if_true, ih, List.mem_cons]
+      constructor
+      · rintro ⟨h, h'⟩; exact ⟨Or.inr h, h'⟩
+      · rintro ⟨h | h, h'⟩
+        · subst h; exact absurd he h'
+        · exact ⟨h, h'⟩
+    · simp only [List.contains_eq_mem, he, decide_false, Bool.false_eq_true, if_false, List.mem_cons, ih]
+      constructor
+      · rintro (h | ⟨h, h'⟩)
+        · subst h; exact ⟨Or.inl rfl, he⟩
+        · exact ⟨Or.inr h, fun hs => h' (Or.inr hs)⟩
+      · rintro ⟨h | h, h'⟩
+        · exact Or.inl h
+        · by_cases hxe : x = e
+          · exact Or.inl hxe
+          · exact Or.inr ⟨h, fun hv => hv.elim hxe h'⟩
+
+theorem distinctPtr_nodup (l seen : List Nat) : (distinctPtr l seen).Nodup := by
+  induction l generalizing seen with
+  | nil => simp [distinctPtr]
+  | cons e rest ih =>
+    simp only [distinctPtr]
+    split
+    · exact ih _
+    · refine List.nodup_cons.2 ⟨?_, ih _⟩
+      intro hm
+      exact ((distinctPtr_mem rest (e :: seen) e).1 hm).2 (List.mem_cons_self)
+
+/-- a list without repetition is what distinctPointers returns for it -/
+theorem distinctPtr_of_nodup (l seen : List Nat) (hnd : l.Nodup) (hdis : ∀ x, x ∈ l → x ∉ seen) :
+    distinctPtr l seen = l := by
+  induction l generalizing seen with
+  | nil => rfl
+  | cons e rest ih =>
+    have he : e ∉ seen := hdis e (List.mem_cons_self)
+    have hnd' := List.nodup_cons.1 hnd
+    simp only [distinctPtr, List.contains_eq_mem, he, decide_false, Bool.false_eq_true, if_false]
+    rw [ih (e :: seen) hnd'.2]
+    intro x hx hs
+    rcases List.mem_cons.1 hs with h | h
+    · subst h; exact hnd'.1 hx
+    · exact hdis x (List.mem_cons_of_mem _ hx) h
+
+theorem nodupB_iff (l : List Nat) : nodupB l = true ↔ l.Nodup := by
+  induction l with
+  | nil => simp [nodupB]
+  | cons e rest ih =>
+    simp only [nodupB, Bool.and_eq_true, Bool.not_eq_true', List.contains_eq_mem, decide_eq_false_iff_not, ih,
+      List.nodup_cons]
+
 /-! ## the pipeline, unfolded once -/
 
 /-- one relation slot of the pipeline run over `batch` -/
-def slotStep (g : VGraph) (roots : List Nat) (fuel : Nat) (batch : List Nat) : VSt → Nat → VSt :=
-  fun st s => saveAssoc roots (saveBatch g roots fuel) (g.group batch s st.keyed) st
+def slotStep (fx : VFix) (g : VGraph) (roots : List Nat) (fuel : Nat) (batch : List Nat) : VSt → Nat → VSt :=
+  fun st s => saveAssoc fx roots batch (saveBatch fx g roots fuel) (g.group batch s st.keyed) st
 
-theorem saveBatch_zero (g : VGraph) (roots batch : List Nat) (st : VSt) :
-    saveBatch g roots 0 batch st = { st with ok := false } := rfl
+theorem saveBatch_zero (fx : VFix) (g : VGraph) (roots batch : List Nat) (st : VSt) :
+    saveBatch fx g roots 0 batch st = { st with ok := false } := rfl
 
-theorem saveBatch_succ (g : VGraph) (roots : List Nat) (fuel : Nat) (batch : List Nat) (st : VSt) :
-    saveBatch g roots (fuel+1) batch st =
-      let st2 := (List.range g.nbefore).foldl (slotStep g roots fuel batch)
+theorem saveBatch_succ (fx : VFix) (g : VGraph) (roots : List Nat) (fuel : Nat) (batch : List Nat) (st : VSt) :
+    saveBatch fx g roots (fuel+1) batch st =
+      let st2 := (List.range g.nbefore).foldl (slotStep fx g roots fuel batch)
         { st with log := st.log ++ batch.map VEv.before }
-      let st4 := ((List.range (g.nslots - g.nbefore)).map (· + g.nbefore)).foldl (slotStep g roots fuel batch)
+      let st4 := ((List.range (g.nslots - g.nbefore)).map (· + g.nbefore)).foldl (slotStep fx g roots fuel batch)
         { st2 with log := st2.log ++ [VEv.stmt batch], keyed := batch ++ st2.keyed }
       { st4 with log := st4.log ++ batch.map VEv.after } := rfl
 
 /-- a state predicate kept by every step of the pipeline up to the after-hooks holds before the after-hooks -/
-theorem saveBatch_succ_inv2 (P Q : VSt → Prop) (g : VGraph) (roots : List Nat) (fuel : Nat) (batch : List Nat)
-    (st : VSt)
+theorem saveBatch_succ_inv2 (P Q : VSt → Prop) (fx : VFix) (g : VGraph) (roots : List Nat) (fuel : Nat)
+    (batch : List Nat) (st : VSt)
     (hbefore : P { st with log := st.log ++ batch.map VEv.before })
-    (hstep : ∀ st' s, (s < g.nbefore ∨ s < g.nslots) → P st' → P (slotStep g roots fuel batch st' s))
+    (hstep : ∀ st' s, (s < g.nbefore ∨ s < g.nslots) → P st' → P (slotStep fx g roots fuel batch st' s))
     (hstmt : ∀ st' : VSt, P st' → P { st' with log := st'.log ++ [VEv.stmt batch], keyed := batch ++ st'.keyed })
     (hafter : ∀ st' : VSt, P st' → Q { st' with log := st'.log ++ batch.map VEv.after }) :
-    Q (saveBatch g roots (fuel+1) batch st) := by
+    Q (saveBatch fx g roots (fuel+1) batch st) := by
   rw [saveBatch_succ]
   refine hafter _ (vfoldl_inv P _ _ (fun b a ha => hstep b a ?_) _
     (hstmt _ (vfoldl_inv P _ _ (fun b a ha => hstep b a ?_) _ hbefore)))
@@ -154,47 +420,107 @@ theorem saveBatch_succ_inv2 (P Q : VSt → Prop) (g : VGraph) (roots : List Nat)
   · exact Or.inl (List.mem_range.1 ha)
 
 /-- a state predicate kept by every step of the pipeline is kept by the pipeline -/
-theorem saveBatch_succ_inv (P : VSt → Prop) (g : VGraph) (roots : List Nat) (fuel : Nat) (batch : List Nat)
-    (st : VSt)
+theorem saveBatch_succ_inv (P : VSt → Prop) (fx : VFix) (g : VGraph) (roots : List Nat) (fuel : Nat)
+    (batch : List Nat) (st : VSt)
     (hbefore : P { st with log := st.log ++ batch.map VEv.before })
-    (hstep : ∀ st' s, (s < g.nbefore ∨ s < g.nslots) → P st' → P (slotStep g roots fuel batch st' s))
+    (hstep : ∀ st' s, (s < g.nbefore ∨ s < g.nslots) → P st' → P (slotStep fx g roots fuel batch st' s))
     (hstmt : ∀ st' : VSt, P st' → P { st' with log := st'.log ++ [VEv.stmt batch], keyed := batch ++ st'.keyed })
     (hafter : ∀ st' : VSt, P st' → P { st' with log := st'.log ++ batch.map VEv.after }) :
-    P (saveBatch g roots (fuel+1) batch st) :=
-  saveBatch_succ_inv2 P P g roots fuel batch st hbefore hstep hstmt hafter
+    P (saveBatch fx g roots (fuel+1) batch st) :=
+  saveBatch_succ_inv2 P P fx g roots fuel batch st hbefore hstep hstmt hafter
+
+/-- what the guard of saveAssociations guarantees, whichever repairs it carries: `B` = the records registered when
+    the guard ran.  Either everything was registered (skip), or a list `values ⊆ elems` is created that covers every
+    unregistered record of `elems`, holds at least one of them, and afterwards all of `elems` are registered. -/
+theorem saveGuard_spec (fx : VFix) (own elems : List Nat) (v : Option (List Nat)) (hne : elems ≠ []) :
+    let r := saveGuard fx own elems v
+    let B := visitBase fx.root own v
+    r.2.2.isSome = true ∧ (∀ x, x ∈ r.2.2.getD [] ↔ x ∈ elems ∨ x ∈ B) ∧
+    (r.2.1 = true → ∀ e, e ∈ elems → e ∈ B) ∧
+    (r.2.1 = false → (∀ x, x ∈ r.1 → x ∈ elems) ∧ (∀ x, x ∈ elems → x ∈ r.1 ∨ x ∈ B) ∧ (∃ e, e ∈ r.1 ∧ e ∉ B)) ∧
+    (fx.filter = true → (∀ x, x ∈ r.1 → x ∉ B) ∧ r.1.Nodup) ∧
+    (fx.filter = false → r.1 = elems) := by
+  unfold saveGuard
+  cases hf : fx.filter with
+  | true =>
+    obtain ⟨h1, h2, h3, h4⟩ := filterSaved_spec fx.root own elems v hne
+    simp only [if_true]
+    refine ⟨h1, h2, ?_, ?_, fun _ => ⟨fun x hx => ((h3 x).1 hx).2, h4⟩, fun h => by simp at h⟩
+    · intro hemp e he
+      have hnil : (filterSaved fx.root own elems v).1 = [] := by simpa using hemp
+      by_cases hb : e ∈ visitBase fx.root own v
+      · exact hb
+      · have := (h3 e).2 ⟨he, hb⟩
+        rw [hnil] at this; simp at this
+    · intro hemp
+      refine ⟨fun x hx => ((h3 x).1 hx).1, fun x hx => ?_, ?_⟩
+      · by_cases hb : x ∈ visitBase fx.root own v
+        · exact Or.inr hb
+        · exact Or.inl ((h3 x).2 ⟨hx, hb⟩)
+      · cases hq : (filterSaved fx.root own elems v).1 with
+        | nil => simp [hq] at hemp
+        | cons e rest =>
+          exact ⟨e, List.mem_cons_self, ((h3 e).1 (by rw [hq]; exact List.mem_cons_self)).2⟩
+  | false =>
+    have hl := checkSavedR_loaded fx.root own elems v hne
+    have hm := checkSavedR_mem fx.root own elems v
+    simp only [Bool.false_eq_true, if_false]
+    refine ⟨checkSavedR_isSome _ _ _ _, hm, ?_, ?_, fun h => by simp at h, fun _ => trivial⟩
+    · intro hr e he
+      rw [hl, List.all_eq_true] at hr
+      simpa using hr e he
+    · intro hr
+      rw [hl, List.all_eq_false] at hr
+      obtain ⟨e, he1, he2⟩ := hr
+      exact ⟨fun _ h => h, fun x hx => Or.inl hx, e, he1, by simpa using he2⟩
 
 /-- the three ways `saveAssoc` can go -/
-theorem saveAssoc_cases (roots : List Nat) (rec : List Nat → VSt → VSt) (elems : List Nat) (st : VSt)
+theorem saveAssoc_cases (fx : VFix) (roots own : List Nat) (rec : List Nat → VSt → VSt) (elems : List Nat) (st : VSt)
     (C : VSt → Prop)
     (h0 : elems = [] → C st)
-    (h1 : ∀ v' : Option (List Nat), (∀ x, x ∈ v'.getD [] ↔ x ∈ elems ∨ x ∈ st.visited.getD []) →
-      (∀ e, e ∈ elems → e ∈ st.visited.getD []) → C { st with visited := v' })
-    (h2 : ∀ v' : Option (List Nat), (∀ x, x ∈ v'.getD [] ↔ x ∈ elems ∨ x ∈ st.visited.getD []) →
-      (∃ e, e ∈ elems ∧ e ∉ st.visited.getD []) →
-      C (rec elems { st with visited := v', clean := st.clean &&
-        (elems.all (fun e => !(st.visited.getD []).contains e && !roots.contains e) && nodupB elems) })) :
-    C (saveAssoc roots rec elems st) := by
+    (h1 : ∀ v' : Option (List Nat), v'.isSome = true →
+      (∀ x, x ∈ v'.getD [] ↔ x ∈ elems ∨ x ∈ visitBase fx.root own st.visited) →
+      (∀ e, e ∈ elems → e ∈ visitBase fx.root own st.visited) → C { st with visited := v' })
+    (h2 : ∀ (v' : Option (List Nat)) (values : List Nat), v'.isSome = true →
+      (∀ x, x ∈ v'.getD [] ↔ x ∈ elems ∨ x ∈ visitBase fx.root own st.visited) →
+      (∀ x, x ∈ values → x ∈ elems) →
+      (∀ x, x ∈ elems → x ∈ values ∨ x ∈ visitBase fx.root own st.visited) →
+      (∃ e, e ∈ values ∧ e ∉ visitBase fx.root own st.visited) →
+      (fx.filter = true → ∀ x, x ∈ values → x ∉ visitBase fx.root own st.visited) →
+      (fx.filter = true ∨ fx.distinct = true → values.Nodup) →
+      (fx.filter = false → fx.distinct = false → values = elems) →
+      C (rec values (st.enter roots (visitBase fx.root own st.visited) values v'))) :
+    C (saveAssoc fx roots own rec elems st) := by
   unfold saveAssoc
   split
   · rename_i he
     exact h0 (by simpa using he)
   · rename_i he
     have hne : elems ≠ [] := by simpa using he
-    have hl := checkSaved_loaded elems st.visited hne
-    have hm := checkSaved_mem elems st.visited
+    obtain ⟨g1, g2, g3, g4, g5, g6⟩ := saveGuard_spec fx own elems st.visited hne
     simp only []
     split
     · rename_i hr
-      apply h1 _ hm
-      rw [hl, List.all_eq_true] at hr
-      intro e he'
-      simpa using hr e he'
+      exact h1 _ g1 g2 (g3 hr)
     · rename_i hr
-      apply h2 _ hm
-      have hr' : (checkSaved elems st.visited).1 = false := by simpa using hr
-      rw [hl, List.all_eq_false] at hr'
-      obtain ⟨e, he1, he2⟩ := hr'
-      exact ⟨e, he1, by simpa using he2⟩
+      have hr' : (saveGuard fx own elems st.visited).2.1 = false := by simpa using hr
+      obtain ⟨k1, k2, k3⟩ := g4 hr'
+      cases hd : fx.distinct with
+      | false =>
+        simp only [Bool.false_eq_true, if_false]
+        refine h2 _ _ g1 g2 k1 k2 k3 (fun hf => (g5 hf).1) (fun h => ?_) (fun hf _ => g6 hf)
+        rcases h with h | h
+        · exact (g5 h).2
+        · exact absurd h (by simp [hd])
+      | true =>
+        simp only [if_true]
+        have hmem : ∀ x, x ∈ distinctPtr (saveGuard fx own elems st.visited).1 [] ↔
+            x ∈ (saveGuard fx own elems st.visited).1 := fun x => by simp [distinctPtr_mem]
+        refine h2 _ _ g1 g2 (fun x hx => k1 x ((hmem x).1 hx))
+          (fun x hx => (k2 x hx).elim (fun h => Or.inl ((hmem x).2 h)) Or.inr) ?_
+          (fun hf x hx => (g5 hf).1 x ((hmem x).1 hx)) (fun _ => distinctPtr_nodup _ _) (fun _ h => absurd h (by simp [hd]))
+        obtain ⟨e, he1, he2⟩ := k3
+        exact ⟨e, (hmem e).2 he1, he2⟩
 
 /-! ## groups -/
 
@@ -297,10 +623,19 @@ theorem unv_lt (g : VGraph) (V V' : List Nat) (h : ∀ x, x ∈ V → x ∈ V') 
     simp only [Bool.not_eq_true', List.contains_eq_mem, decide_eq_false_iff_not] at hx ⊢
     exact fun hv => hx (h x hv)
 
-theorem saveBatch_ok (g : VGraph) (roots : List Nat) : ∀ (fuel : Nat) (batch : List Nat) (st : VSt),
+theorem enter_ok (st : VSt) (roots B values : List Nat) (v' : Option (List Nat)) :
+    (st.enter roots B values v').ok = st.ok := rfl
+theorem enter_visited (st : VSt) (roots B values : List Nat) (v' : Option (List Nat)) :
+    (st.enter roots B values v').visited = v' := rfl
+theorem enter_log (st : VSt) (roots B values : List Nat) (v' : Option (List Nat)) :
+    (st.enter roots B values v').log = st.log := rfl
+theorem enter_keyed (st : VSt) (roots B values : List Nat) (v' : Option (List Nat)) :
+    (st.enter roots B values v').keyed = st.keyed := rfl
+
+theorem saveBatch_ok (fx : VFix) (g : VGraph) (roots : List Nat) : ∀ (fuel : Nat) (batch : List Nat) (st : VSt),
     st.ok = true → unv g (st.visited.getD []) < fuel →
-    (saveBatch g roots fuel batch st).ok = true ∧
-      ∀ x, x ∈ st.visited.getD [] → x ∈ (saveBatch g roots fuel batch st).visited.getD [] := by
+    (saveBatch fx g roots fuel batch st).ok = true ∧
+      ∀ x, x ∈ st.visited.getD [] → x ∈ (saveBatch fx g roots fuel batch st).visited.getD [] := by
   intro fuel
   induction fuel with
   | zero => intro _ _ _ h; exact absurd h (Nat.not_lt_zero _)
@@ -314,28 +649,30 @@ theorem saveBatch_ok (g : VGraph) (roots : List Nat) : ∀ (fuel : Nat) (batch :
       have hm' : unv g (st'.visited.getD []) ≤ fuel := by
         have := unv_mono g _ _ hsub; omega
       unfold slotStep
-      refine saveAssoc_cases _ _ _ _
+      refine saveAssoc_cases _ _ _ _ _ _
         (fun r => r.ok = true ∧ ∀ x, x ∈ st.visited.getD [] → x ∈ r.visited.getD []) ?_ ?_ ?_
       · intro _; exact ⟨hok', hsub⟩
-      · intro v' hv' _
-        exact ⟨hok', fun x hx => (hv' x).2 (Or.inr (hsub x hx))⟩
-      · intro v' hv' ⟨e, he1, he2⟩
+      · intro v' _ hv' _
+        exact ⟨hok', fun x hx => (hv' x).2 (Or.inr (visited_sub_base _ _ _ _ (hsub x hx)))⟩
+      · intro v' values _ hv' hsubv _ ⟨e, he1, he2⟩ _ _ _
         have hlt : e < g.size := by
-          obtain ⟨m, _, hm⟩ := (group_mem g batch s st'.keyed e).1 he1
+          obtain ⟨m, _, hm⟩ := (group_mem g batch s st'.keyed e).1 (hsubv e he1)
           exact targets_lt g m s e hm
+        have he3 : e ∉ st'.visited.getD [] := fun h => he2 (visited_sub_base _ _ _ _ h)
         have hdrop : unv g (v'.getD []) < unv g (st'.visited.getD []) :=
-          unv_lt g _ _ (fun x hx => (hv' x).2 (Or.inr hx)) e hlt he2 ((hv' e).2 (Or.inl he1))
-        have := ih (g.group batch s st'.keyed)
-          { st' with visited := v', clean := st'.clean &&
-            ((g.group batch s st'.keyed).all (fun e => !(st'.visited.getD []).contains e && !roots.contains e)
-              && nodupB (g.group batch s st'.keyed)) } hok' (by simp only []; omega)
-        exact ⟨this.1, fun x hx => this.2 x ((hv' x).2 (Or.inr (hsub x hx)))⟩
+          unv_lt g _ _ (fun x hx => (hv' x).2 (Or.inr (visited_sub_base _ _ _ _ hx))) e hlt he3
+            ((hv' e).2 (Or.inl (hsubv e he1)))
+        have := ih values (st'.enter roots (visitBase fx.root batch st'.visited) values v') hok'
+          (by rw [enter_visited]; omega)
+        rw [enter_visited] at this
+        exact ⟨this.1, fun x hx => this.2 x ((hv' x).2 (Or.inr (visited_sub_base _ _ _ _ (hsub x hx))))⟩
     · exact fun _ h => h
     · exact fun _ h => h
 
-theorem visit_terminates (g : VGraph) (roots existing : List Nat) : (g.run roots existing).ok = true := by
+theorem visit_terminates (fx : VFix) (g : VGraph) (roots existing : List Nat) :
+    (g.run fx roots existing).ok = true := by
   unfold VGraph.run
-  exact (saveBatch_ok g roots (g.size + 1) roots { keyed := existing } rfl
+  exact (saveBatch_ok fx g roots (g.size + 1) roots { keyed := existing } rfl
     (Nat.lt_succ_of_le (unv_le_size g _))).1
 
 /-! ## counting events -/
@@ -380,9 +717,10 @@ theorem afterCount_stmt (n : Nat) (b : List Nat) : afterCount n [VEv.stmt b] = 0
 
 /-! ## 4. balance -/
 
-theorem saveBatch_balanced (g : VGraph) (roots : List Nat) (n : Nat) : ∀ (fuel : Nat) (batch : List Nat) (st : VSt),
-    afterCount n (saveBatch g roots fuel batch st).log + saveCount n st.log =
-      saveCount n (saveBatch g roots fuel batch st).log + afterCount n st.log := by
+theorem saveBatch_balanced (fx : VFix) (g : VGraph) (roots : List Nat) (n : Nat) :
+    ∀ (fuel : Nat) (batch : List Nat) (st : VSt),
+    afterCount n (saveBatch fx g roots fuel batch st).log + saveCount n st.log =
+      saveCount n (saveBatch fx g roots fuel batch st).log + afterCount n st.log := by
   intro fuel
   induction fuel with
   | zero => intro batch st; simp only [saveBatch_zero]; omega
@@ -392,117 +730,131 @@ theorem saveBatch_balanced (g : VGraph) (roots : List Nat) (n : Nat) : ∀ (fuel
       (fun st' => afterCount n st'.log + saveCount n st.log + batch.count n =
         saveCount n st'.log + afterCount n st.log)
       (fun r => afterCount n r.log + saveCount n st.log = saveCount n r.log + afterCount n st.log)
-      g roots fuel batch st ?_ ?_ ?_ ?_
+      fx g roots fuel batch st ?_ ?_ ?_ ?_
     · simp only [saveCount_append, afterCount_append, saveCount_before, afterCount_before]; omega
     · intro st' s _ hP
       unfold slotStep
-      refine saveAssoc_cases _ _ _ _
+      refine saveAssoc_cases _ _ _ _ _ _
         (fun r => afterCount n r.log + saveCount n st.log + batch.count n =
           saveCount n r.log + afterCount n st.log) ?_ ?_ ?_
       · intro _; exact hP
-      · intro _ _ _; exact hP
-      · intro v' _ _
-        have := ih (g.group batch s st'.keyed)
-          { st' with visited := v', clean := st'.clean &&
-            ((g.group batch s st'.keyed).all (fun e => !(st'.visited.getD []).contains e && !roots.contains e)
-              && nodupB (g.group batch s st'.keyed)) }
-        simp only [] at this ⊢
+      · intro _ _ _ _; exact hP
+      · intro v' values _ _ _ _ _ _ _ _
+        have := ih values (st'.enter roots (visitBase fx.root batch st'.visited) values v')
+        rw [enter_log] at this
         omega
     · intro st' hP
       simp only [saveCount_append, afterCount_append, saveCount_stmt, afterCount_stmt]; omega
     · intro st' hP
       simp only [saveCount_append, afterCount_append, saveCount_after, afterCount_after]; omega
 
-theorem visit_balanced (g : VGraph) (roots existing : List Nat) (n : Nat) :
-    afterCount n (g.run roots existing).log = saveCount n (g.run roots existing).log := by
-  have := saveBatch_balanced g roots n (g.size + 1) roots { keyed := existing }
+theorem visit_balanced (fx : VFix) (g : VGraph) (roots existing : List Nat) (n : Nat) :
+    afterCount n (g.run fx roots existing).log = saveCount n (g.run fx roots existing).log := by
+  have := saveBatch_balanced fx g roots n (g.size + 1) roots { keyed := existing }
   unfold VGraph.run
   simpa [saveCount, afterCount] using this
 
 /-! ## monotonicity: flags only fall, the visit map and the log only grow -/
 
 def VMono (a b : VSt) : Prop :=
-  (b.ok = true → a.ok = true) ∧ (b.clean = true → a.clean = true) ∧
-  (∀ x, x ∈ a.visited.getD [] → x ∈ b.visited.getD []) ∧ (∀ n, saveCount n a.log ≤ saveCount n b.log)
+  (b.ok = true → a.ok = true) ∧
+  ((b.cleanMixed = true → a.cleanMixed = true) ∧ (b.cleanRoot = true → a.cleanRoot = true) ∧
+    (b.cleanDup = true → a.cleanDup = true)) ∧
+  (∀ x, x ∈ a.visited.getD [] → x ∈ b.visited.getD []) ∧ (∀ n, saveCount n a.log ≤ saveCount n b.log) ∧
+  (a.visited.isSome = true → b.visited.isSome = true)
 
-theorem VMono.refl (a : VSt) : VMono a a := ⟨id, id, fun _ h => h, fun _ => Nat.le_refl _⟩
+theorem VMono.refl (a : VSt) : VMono a a := ⟨id, ⟨id, id, id⟩, fun _ h => h, fun _ => Nat.le_refl _, id⟩
 
 theorem VMono.trans {a b c : VSt} (h1 : VMono a b) (h2 : VMono b c) : VMono a c :=
-  ⟨fun h => h1.1 (h2.1 h), fun h => h1.2.1 (h2.2.1 h), fun x h => h2.2.2.1 x (h1.2.2.1 x h),
-    fun n => Nat.le_trans (h1.2.2.2 n) (h2.2.2.2 n)⟩
+  ⟨fun h => h1.1 (h2.1 h),
+    ⟨fun h => h1.2.1.1 (h2.2.1.1 h), fun h => h1.2.1.2.1 (h2.2.1.2.1 h), fun h => h1.2.1.2.2 (h2.2.1.2.2 h)⟩,
+    fun x h => h2.2.2.1 x (h1.2.2.1 x h),
+    fun n => Nat.le_trans (h1.2.2.2.1 n) (h2.2.2.2.1 n), fun h => h2.2.2.2.2 (h1.2.2.2.2 h)⟩
+
+theorem VMono.clean {a b : VSt} (h : VMono a b) : b.clean = true → a.clean = true := by
+  unfold VSt.clean
+  simp only [Bool.and_eq_true]
+  rintro ⟨⟨h1, h2⟩, h3⟩
+  exact ⟨⟨h.2.1.1 h1, h.2.1.2.1 h2⟩, h.2.1.2.2 h3⟩
 
 theorem VMono.log (a : VSt) (l : List VEv) (k : List Nat) :
     VMono a { a with log := a.log ++ l, keyed := k } :=
-  ⟨id, id, fun _ h => h, fun n => by simp only [saveCount_append]; omega⟩
+  ⟨id, ⟨id, id, id⟩, fun _ h => h, fun n => by simp only [saveCount_append]; omega, id⟩
 
-theorem saveAssoc_mono (roots : List Nat) (rec : List Nat → VSt → VSt)
-    (hrec : ∀ b st, VMono st (rec b st)) (elems : List Nat) (st : VSt) :
-    VMono st (saveAssoc roots rec elems st) := by
-  refine saveAssoc_cases _ _ _ _ (fun r => VMono st r) ?_ ?_ ?_
-  · intro _; exact VMono.refl st
-  · intro v' hv' _
-    exact ⟨id, id, fun x hx => (hv' x).2 (Or.inr hx), fun _ => Nat.le_refl _⟩
-  · intro v' hv' _
-    refine VMono.trans ?_ (hrec _ _)
-    refine ⟨id, ?_, fun x hx => (hv' x).2 (Or.inr hx), fun _ => Nat.le_refl _⟩
-    intro h
-    simp only [Bool.and_eq_true] at h
+theorem VMono.enter (st : VSt) (roots B values : List Nat) (v' : Option (List Nat))
+    (hv : ∀ x, x ∈ st.visited.getD [] → x ∈ v'.getD []) (hs : v'.isSome = true) :
+    VMono st (st.enter roots B values v') := by
+  refine ⟨id, ⟨?_, ?_, ?_⟩, hv, fun _ => Nat.le_refl _, fun _ => hs⟩ <;>
+  · intro h
+    simp only [VSt.enter, Bool.and_eq_true] at h
     exact h.1
 
-theorem saveBatch_mono (g : VGraph) (roots : List Nat) : ∀ (fuel : Nat) (batch : List Nat) (st : VSt),
-    VMono st (saveBatch g roots fuel batch st) := by
+theorem saveAssoc_mono (fx : VFix) (roots own : List Nat) (rec : List Nat → VSt → VSt)
+    (hrec : ∀ b st, VMono st (rec b st)) (elems : List Nat) (st : VSt) :
+    VMono st (saveAssoc fx roots own rec elems st) := by
+  refine saveAssoc_cases _ _ _ _ _ _ (fun r => VMono st r) ?_ ?_ ?_
+  · intro _; exact VMono.refl st
+  · intro v' hs hv' _
+    exact ⟨id, ⟨id, id, id⟩, fun x hx => (hv' x).2 (Or.inr (visited_sub_base _ _ _ _ hx)), fun _ => Nat.le_refl _,
+      fun _ => hs⟩
+  · intro v' values hs hv' _ _ _ _ _ _
+    exact VMono.trans (VMono.enter st _ _ _ _ (fun x hx => (hv' x).2 (Or.inr (visited_sub_base _ _ _ _ hx))) hs)
+      (hrec _ _)
+
+theorem saveBatch_mono (fx : VFix) (g : VGraph) (roots : List Nat) : ∀ (fuel : Nat) (batch : List Nat) (st : VSt),
+    VMono st (saveBatch fx g roots fuel batch st) := by
   intro fuel
   induction fuel with
   | zero =>
     intro batch st
     rw [saveBatch_zero]
-    exact ⟨fun h => by simp at h, id, fun _ h => h, fun _ => Nat.le_refl _⟩
+    exact ⟨fun h => by simp at h, ⟨id, id, id⟩, fun _ h => h, fun _ => Nat.le_refl _, id⟩
   | succ fuel ih =>
     intro batch st
-    refine saveBatch_succ_inv (fun st' => VMono st st') g roots fuel batch st ?_ ?_ ?_ ?_
+    refine saveBatch_succ_inv (fun st' => VMono st st') fx g roots fuel batch st ?_ ?_ ?_ ?_
     · exact VMono.log st _ _
     · intro st' s _ hP
-      exact VMono.trans hP (saveAssoc_mono roots _ (fun b st => ih b st) _ _)
+      exact VMono.trans hP (saveAssoc_mono fx roots _ _ (fun b st => ih b st) _ _)
     · intro st' hP
       exact VMono.trans hP (VMono.log st' _ _)
     · intro st' hP
       exact VMono.trans hP (VMono.log st' _ _)
 
-theorem slotStep_mono (g : VGraph) (roots : List Nat) (fuel : Nat) (batch : List Nat) (st : VSt) (s : Nat) :
-    VMono st (slotStep g roots fuel batch st s) :=
-  saveAssoc_mono roots _ (fun b st => saveBatch_mono g roots fuel b st) _ _
+theorem slotStep_mono (fx : VFix) (g : VGraph) (roots : List Nat) (fuel : Nat) (batch : List Nat) (st : VSt)
+    (s : Nat) : VMono st (slotStep fx g roots fuel batch st s) :=
+  saveAssoc_mono fx roots _ _ (fun b st => saveBatch_mono fx g roots fuel b st) _ _
 
 /-! ## 3. at most once -/
 
-theorem nodupB_count (l : List Nat) (h : nodupB l = true) (n : Nat) : l.count n ≤ 1 := by
-  induction l with
-  | nil => simp
-  | cons e rest ih =>
-    simp only [nodupB, Bool.and_eq_true, Bool.not_eq_true', List.contains_eq_mem,
-      decide_eq_false_iff_not] at h
-    rw [List.count_cons]
-    have := ih h.2
-    by_cases hen : e = n
-    · subst hen
-      have : rest.count e = 0 := List.count_eq_zero.2 h.1
-      simp [this]
-    · simp [hen]; exact this
+theorem nodup_count {l : List Nat} (h : l.Nodup) (n : Nat) : l.count n ≤ 1 := List.nodup_iff_count.1 h n
 
 /-- every record whose before-hooks fired did so once, and is registered in the visit map or a root -/
 def VOnce (roots : List Nat) (st : VSt) : Prop :=
   (∀ n, saveCount n st.log ≤ 1) ∧ (∀ n, 1 ≤ saveCount n st.log → n ∈ st.visited.getD [] ∨ n ∈ roots)
 
-theorem saveBatch_once (g : VGraph) (roots : List Nat) : ∀ (fuel : Nat) (batch : List Nat) (st : VSt),
+/-- what the three pattern flags say about the list a nested Create started with -/
+theorem enter_clean (st : VSt) (roots B values : List Nat) (v' : Option (List Nat))
+    (h : (st.enter roots B values v').clean = true) :
+    st.clean = true ∧ (∀ e, e ∈ values → e ∉ B ∧ e ∉ roots) ∧ values.Nodup := by
+  simp only [VSt.clean, VSt.enter, Bool.and_eq_true, List.all_eq_true, Bool.not_eq_true', List.contains_eq_mem,
+    decide_eq_false_iff_not, Bool.and_eq_false_iff, Bool.not_eq_false', decide_eq_true_eq, nodupB_iff] at h
+  obtain ⟨⟨⟨h1, h2⟩, ⟨h3, h4⟩⟩, ⟨h5, h6⟩⟩ := h
+  refine ⟨by simp [VSt.clean, h1, h3, h5], fun e he => ⟨h2 e he, fun hr => ?_⟩, h6⟩
+  rcases h4 e he with h | h
+  · exact h hr
+  · exact h2 e he h
+
+theorem saveBatch_once (fx : VFix) (g : VGraph) (roots : List Nat) : ∀ (fuel : Nat) (batch : List Nat) (st : VSt),
     (∀ n, batch.count n ≤ 1) →
     (∀ n, n ∈ batch → saveCount n st.log = 0 ∧ (n ∈ st.visited.getD [] ∨ n ∈ roots)) →
-    VOnce roots st → (saveBatch g roots fuel batch st).clean = true →
-    VOnce roots (saveBatch g roots fuel batch st) := by
+    VOnce roots st → (saveBatch fx g roots fuel batch st).clean = true →
+    VOnce roots (saveBatch fx g roots fuel batch st) := by
   intro fuel
   induction fuel with
   | zero => intro batch st _ _ h _; exact h
   | succ fuel ih =>
     intro batch st hnd hpre hinv
-    refine saveBatch_succ_inv (fun st' => st'.clean = true → VOnce roots st') g roots fuel batch st ?_ ?_ ?_ ?_
+    refine saveBatch_succ_inv (fun st' => st'.clean = true → VOnce roots st') fx g roots fuel batch st ?_ ?_ ?_ ?_
     · intro _
       constructor
       · intro n
@@ -521,29 +873,32 @@ theorem saveBatch_once (g : VGraph) (roots : List Nat) : ∀ (fuel : Nat) (batch
     · intro st' s _ hP
       unfold slotStep
       intro hclean
-      have hmono := slotStep_mono g roots fuel batch st' s
+      have hmono := slotStep_mono fx g roots fuel batch st' s
       unfold slotStep at hmono
-      have hI := hP (hmono.2.1 hclean)
+      have hI := hP (hmono.clean hclean)
       revert hclean
-      refine saveAssoc_cases _ _ _ _ (fun r => r.clean = true → VOnce roots r) ?_ ?_ ?_
+      refine saveAssoc_cases _ _ _ _ _ _ (fun r => r.clean = true → VOnce roots r) ?_ ?_ ?_
       · intro _ _; exact hI
-      · intro v' hv' _ _
-        exact ⟨hI.1, fun n hn => (hI.2 n hn).elim (fun h => Or.inl ((hv' n).2 (Or.inr h))) Or.inr⟩
-      · intro v' hv' _ hres
-        have hc := (saveBatch_mono g roots fuel _ _).2.1 hres
-        simp only [Bool.and_eq_true, List.all_eq_true, Bool.not_eq_true', List.contains_eq_mem,
-          decide_eq_false_iff_not] at hc
-        obtain ⟨_, hall, hnodup⟩ := hc
-        refine ih _ _ (nodupB_count _ hnodup) ?_ ?_ hres
+      · intro v' _ hv' _ _
+        exact ⟨hI.1, fun n hn => (hI.2 n hn).elim
+          (fun h => Or.inl ((hv' n).2 (Or.inr (visited_sub_base _ _ _ _ h)))) Or.inr⟩
+      · intro v' values _ hv' hsubv _ _ _ _ _ hres
+        have hc := (saveBatch_mono fx g roots fuel _ _).clean hres
+        obtain ⟨_, hall, hnodup⟩ := enter_clean _ _ _ _ _ hc
+        refine ih _ _ (nodup_count hnodup) ?_ ?_ hres
         · intro n hn
-          refine ⟨?_, Or.inl ((hv' n).2 (Or.inl hn))⟩
+          rw [enter_log, enter_visited]
+          refine ⟨?_, Or.inl ((hv' n).2 (Or.inl (hsubv n hn)))⟩
           have h1 := hI.2 n
           have h2 := hall n hn
           cases hc : saveCount n st'.log with
           | zero => rfl
           | succ k =>
-            exact absurd (h1 (by omega)) (by simp only [not_or]; exact h2)
-        · exact ⟨hI.1, fun n hn => (hI.2 n hn).elim (fun h => Or.inl ((hv' n).2 (Or.inr h))) Or.inr⟩
+            rcases h1 (by omega) with h | h
+            · exact absurd (visited_sub_base _ _ _ _ h) h2.1
+            · exact absurd h h2.2
+        · exact ⟨hI.1, fun n hn => (hI.2 n hn).elim
+            (fun h => Or.inl ((hv' n).2 (Or.inr (visited_sub_base _ _ _ _ h)))) Or.inr⟩
     · intro st' hP hclean
       have := hP hclean
       refine ⟨fun n => ?_, fun n => ?_⟩
@@ -555,11 +910,11 @@ theorem saveBatch_once (g : VGraph) (roots : List Nat) : ∀ (fuel : Nat) (batch
       · simp only [saveCount_append, saveCount_after]; exact this.1 n
       · simp only [saveCount_append, saveCount_after]; exact this.2 n
 
-theorem visit_at_most_once (g : VGraph) (roots existing : List Nat) :
-    roots.Nodup → (g.run roots existing).clean = true → ∀ n, saveCount n (g.run roots existing).log ≤ 1 := by
+theorem visit_at_most_once (fx : VFix) (g : VGraph) (roots existing : List Nat) :
+    roots.Nodup → (g.run fx roots existing).clean = true → ∀ n, saveCount n (g.run fx roots existing).log ≤ 1 := by
   intro hnd hclean
   unfold VGraph.run at hclean ⊢
-  refine (saveBatch_once g roots (g.size + 1) roots { keyed := existing } (List.nodup_iff_count.1 hnd)
+  refine (saveBatch_once fx g roots (g.size + 1) roots { keyed := existing } (List.nodup_iff_count.1 hnd)
     ?_ ?_ hclean).1
   · intro n hn; exact ⟨by simp [saveCount], Or.inr hn⟩
   · exact ⟨fun n => by simp [saveCount], fun n h => by simp [saveCount] at h⟩
@@ -579,43 +934,44 @@ theorem vfoldl_hit {α β : Type} (R : β → β → Prop) (refl : ∀ b, R b b)
       exact hA _ _ (hit b) (vfoldl_rel R refl trans f l hR _)
     · exact ih h _
 
-theorem saveAssoc_registers (roots : List Nat) (rec : List Nat → VSt → VSt)
+theorem saveAssoc_registers (fx : VFix) (roots own : List Nat) (rec : List Nat → VSt → VSt)
     (hrec : ∀ b st, VMono st (rec b st)) (elems : List Nat) (st : VSt) (t : Nat) (ht : t ∈ elems) :
-    t ∈ (saveAssoc roots rec elems st).visited.getD [] := by
-  refine saveAssoc_cases _ _ _ _ (fun r => t ∈ r.visited.getD []) ?_ ?_ ?_
+    t ∈ (saveAssoc fx roots own rec elems st).visited.getD [] := by
+  refine saveAssoc_cases _ _ _ _ _ _ (fun r => t ∈ r.visited.getD []) ?_ ?_ ?_
   · intro h; subst h; simp at ht
-  · intro v' hv' _; exact (hv' t).2 (Or.inl ht)
-  · intro v' hv' _; exact (hrec _ _).2.2.1 t ((hv' t).2 (Or.inl ht))
+  · intro v' _ hv' _; exact (hv' t).2 (Or.inl ht)
+  · intro v' values _ hv' _ _ _ _ _ _
+    exact (hrec _ _).2.2.1 t (by rw [enter_visited]; exact (hv' t).2 (Or.inl ht))
 
-theorem slotStep_registers (g : VGraph) (roots : List Nat) (fuel : Nat) (batch : List Nat) (st : VSt)
+theorem slotStep_registers (fx : VFix) (g : VGraph) (roots : List Nat) (fuel : Nat) (batch : List Nat) (st : VSt)
     (s m t : Nat) (hm : m ∈ batch) (ht : t ∈ g.targets m s) :
-    t ∈ (slotStep g roots fuel batch st s).visited.getD [] :=
-  saveAssoc_registers roots _ (fun b st => saveBatch_mono g roots fuel b st) _ _ t
+    t ∈ (slotStep fx g roots fuel batch st s).visited.getD [] :=
+  saveAssoc_registers fx roots _ _ (fun b st => saveBatch_mono fx g roots fuel b st) _ _ t
     ((group_mem g batch s st.keyed t).2 ⟨m, hm, ht⟩)
 
-theorem slotLoop_mono (g : VGraph) (roots : List Nat) (fuel : Nat) (batch : List Nat) (l : List Nat) (st : VSt) :
-    VMono st (l.foldl (slotStep g roots fuel batch) st) :=
+theorem slotLoop_mono (fx : VFix) (g : VGraph) (roots : List Nat) (fuel : Nat) (batch : List Nat) (l : List Nat)
+    (st : VSt) : VMono st (l.foldl (slotStep fx g roots fuel batch) st) :=
   vfoldl_rel VMono VMono.refl (fun _ _ _ h1 h2 => VMono.trans h1 h2) _ l
-    (fun b a => slotStep_mono g roots fuel batch b a) st
+    (fun b a => slotStep_mono fx g roots fuel batch b a) st
 
-theorem slotLoop_registers (g : VGraph) (roots : List Nat) (fuel : Nat) (batch : List Nat) (l : List Nat)
-    (st : VSt) (s m t : Nat) (hs : s ∈ l) (hm : m ∈ batch) (ht : t ∈ g.targets m s) :
-    t ∈ (l.foldl (slotStep g roots fuel batch) st).visited.getD [] :=
+theorem slotLoop_registers (fx : VFix) (g : VGraph) (roots : List Nat) (fuel : Nat) (batch : List Nat)
+    (l : List Nat) (st : VSt) (s m t : Nat) (hs : s ∈ l) (hm : m ∈ batch) (ht : t ∈ g.targets m s) :
+    t ∈ (l.foldl (slotStep fx g roots fuel batch) st).visited.getD [] :=
   vfoldl_hit VMono VMono.refl (fun _ _ _ h1 h2 => VMono.trans h1 h2) _
-    (fun b a => slotStep_mono g roots fuel batch b a)
+    (fun b a => slotStep_mono fx g roots fuel batch b a)
     (fun b => t ∈ b.visited.getD []) (fun _ _ ha hab => hab.2.2.1 t ha) s
-    (fun b => slotStep_registers g roots fuel batch b s m t hm ht) l hs st
+    (fun b => slotStep_registers fx g roots fuel batch b s m t hm ht) l hs st
 
 /-- after the pipeline ran over `batch`, every record held by a relation of a member of `batch` is registered -/
-theorem saveBatch_succ_closure (g : VGraph) (roots : List Nat) (fuel : Nat) (batch : List Nat) (st : VSt)
-    (m s t : Nat) (hm : m ∈ batch) (hs : s < g.nslots) (ht : t ∈ g.targets m s) :
-    t ∈ (saveBatch g roots (fuel+1) batch st).visited.getD [] := by
+theorem saveBatch_succ_closure (fx : VFix) (g : VGraph) (roots : List Nat) (fuel : Nat) (batch : List Nat)
+    (st : VSt) (m s t : Nat) (hm : m ∈ batch) (hs : s < g.nslots) (ht : t ∈ g.targets m s) :
+    t ∈ (saveBatch fx g roots (fuel+1) batch st).visited.getD [] := by
   rw [saveBatch_succ]
   simp only []
   by_cases hsb : s < g.nbefore
-  · apply (slotLoop_mono g roots fuel batch _ _).2.2.1
-    exact slotLoop_registers g roots fuel batch _ _ s m t (List.mem_range.2 hsb) hm ht
-  · apply slotLoop_registers g roots fuel batch _ _ s m t _ hm ht
+  · apply (slotLoop_mono fx g roots fuel batch _ _).2.2.1
+    exact slotLoop_registers fx g roots fuel batch _ _ s m t (List.mem_range.2 hsb) hm ht
+  · apply slotLoop_registers fx g roots fuel batch _ _ s m t _ hm ht
     exact List.mem_map.2 ⟨s - g.nbefore, List.mem_range.2 (by omega), by omega⟩
 
 /-- record `x` was saved and everything its relations hold is registered -/
@@ -623,13 +979,15 @@ def VDone (g : VGraph) (r : VSt) (x : Nat) : Prop :=
   1 ≤ saveCount x r.log ∧ ∀ s, s < g.nslots → ∀ t, t ∈ g.targets x s → t ∈ r.visited.getD []
 
 theorem VDone.mono {g : VGraph} {a b : VSt} {x : Nat} (h : VMono a b) : VDone g a x → VDone g b x :=
-  fun hd => ⟨Nat.le_trans hd.1 (h.2.2.2 x), fun s hs t ht => h.2.2.1 t (hd.2 s hs t ht)⟩
+  fun hd => ⟨Nat.le_trans hd.1 (h.2.2.2.1 x), fun s hs t ht => h.2.2.1 t (hd.2 s hs t ht)⟩
 
-theorem saveBatch_complete (g : VGraph) (roots : List Nat) : ∀ (fuel : Nat) (batch : List Nat) (st : VSt),
-    (saveBatch g roots fuel batch st).ok = true →
-    (∀ m, m ∈ batch → VDone g (saveBatch g roots fuel batch st) m) ∧
-    (∀ x, x ∈ (saveBatch g roots fuel batch st).visited.getD [] → x ∉ st.visited.getD [] →
-      VDone g (saveBatch g roots fuel batch st) x) := by
+/-- the members of the batch are done at the end; every record that got registered during the run (with the F28
+    repair that includes the batch itself, registered when the map is created) is done at the end -/
+theorem saveBatch_complete (fx : VFix) (g : VGraph) (roots : List Nat) : ∀ (fuel : Nat) (batch : List Nat) (st : VSt),
+    (saveBatch fx g roots fuel batch st).ok = true →
+    (∀ m, m ∈ batch → VDone g (saveBatch fx g roots fuel batch st) m) ∧
+    (∀ x, x ∈ (saveBatch fx g roots fuel batch st).visited.getD [] → x ∉ st.visited.getD [] →
+      VDone g (saveBatch fx g roots fuel batch st) x) := by
   intro fuel
   induction fuel with
   | zero => intro batch st h; simp [saveBatch_zero] at h
@@ -637,71 +995,87 @@ theorem saveBatch_complete (g : VGraph) (roots : List Nat) : ∀ (fuel : Nat) (b
     intro batch st hok
     have hmove : ∀ a b : VSt, VMono a b → (∀ x, x ∈ b.visited.getD [] → x ∈ a.visited.getD []) →
         ((∀ m, m ∈ batch → 1 ≤ saveCount m a.log) ∧
-          (∀ x, x ∈ a.visited.getD [] → x ∉ st.visited.getD [] → VDone g a x)) →
+          (∀ x, x ∈ a.visited.getD [] → x ∉ st.visited.getD [] → x ∈ batch ∨ VDone g a x)) →
         ((∀ m, m ∈ batch → 1 ≤ saveCount m b.log) ∧
-          (∀ x, x ∈ b.visited.getD [] → x ∉ st.visited.getD [] → VDone g b x)) := by
+          (∀ x, x ∈ b.visited.getD [] → x ∉ st.visited.getD [] → x ∈ batch ∨ VDone g b x)) := by
       intro a b hab hV hbody
-      exact ⟨fun m hm => Nat.le_trans (hbody.1 m hm) (hab.2.2.2 m),
-        fun x hx hx' => VDone.mono hab (hbody.2 x (hV x hx) hx')⟩
+      exact ⟨fun m hm => Nat.le_trans (hbody.1 m hm) (hab.2.2.2.1 m),
+        fun x hx hx' => (hbody.2 x (hV x hx) hx').elim Or.inl (fun h => Or.inr (VDone.mono hab h))⟩
     have main := saveBatch_succ_inv
       (fun st' => st'.ok = true → (∀ m, m ∈ batch → 1 ≤ saveCount m st'.log) ∧
-        (∀ x, x ∈ st'.visited.getD [] → x ∉ st.visited.getD [] → VDone g st' x))
-      g roots fuel batch st ?_ ?_ ?_ ?_ hok
-    · refine ⟨fun m hm => ⟨main.1 m hm, fun s hs t ht => ?_⟩, main.2⟩
-      exact saveBatch_succ_closure g roots fuel batch st m s t hm hs ht
+        (∀ x, x ∈ st'.visited.getD [] → x ∉ st.visited.getD [] → x ∈ batch ∨ VDone g st' x))
+      fx g roots fuel batch st ?_ ?_ ?_ ?_ hok
+    · have hbatch : ∀ m, m ∈ batch → VDone g (saveBatch fx g roots (fuel+1) batch st) m :=
+        fun m hm => ⟨main.1 m hm, fun s hs t ht => saveBatch_succ_closure fx g roots fuel batch st m s t hm hs ht⟩
+      exact ⟨hbatch, fun x hx hx' => (main.2 x hx hx').elim (hbatch x) id⟩
     · intro _
       refine ⟨fun m hm => ?_, fun x hx hx' => absurd hx hx'⟩
       simp only [saveCount_append, saveCount_before]
       have : 1 ≤ batch.count m := List.one_le_count_iff.2 hm
       omega
     · intro st' s _ hP
-      have hmono := slotStep_mono g roots fuel batch st' s
+      have hmono := slotStep_mono fx g roots fuel batch st' s
       unfold slotStep at hmono ⊢
       intro hok'
       have hP' := hP (hmono.1 hok')
-      revert hok'
-      refine saveAssoc_cases _ _ _ _
-        (fun r => r.ok = true → (∀ m, m ∈ batch → 1 ≤ saveCount m r.log) ∧
-          (∀ x, x ∈ r.visited.getD [] → x ∉ st.visited.getD [] → VDone g r x)) ?_ ?_ ?_
-      · intro _ _; exact hP'
-      · intro v' hv' hall _
-        refine hmove st' _ ⟨id, id, fun x hx => (hv' x).2 (Or.inr hx), fun _ => Nat.le_refl _⟩ ?_ hP'
+      -- a record of the base is registered already, or a member of the batch (F28: the new map starts with them)
+      have hbase : ∀ x, x ∈ visitBase fx.root batch st'.visited → x ∈ st'.visited.getD [] ∨ x ∈ batch := by
         intro x hx
-        exact ((hv' x).1 hx).elim (hall x) id
-      · intro v' hv' _ hres
+        rcases (mem_visitBase _ _ _ _).1 hx with h | ⟨_, _, h⟩
+        · exact Or.inl h
+        · exact Or.inr h
+      revert hok'
+      refine saveAssoc_cases _ _ _ _ _ _
+        (fun r => r.ok = true → (∀ m, m ∈ batch → 1 ≤ saveCount m r.log) ∧
+          (∀ x, x ∈ r.visited.getD [] → x ∉ st.visited.getD [] → x ∈ batch ∨ VDone g r x)) ?_ ?_ ?_
+      · intro _ _; exact hP'
+      · intro v' hsome hv' hall _
+        refine ⟨hP'.1, fun x hx hx' => ?_⟩
+        have hxb : x ∈ visitBase fx.root batch st'.visited := ((hv' x).1 hx).elim (hall x) id
+        have M : VMono st' { st' with visited := v' } :=
+          ⟨id, ⟨id, id, id⟩, fun y hy => (hv' y).2 (Or.inr (visited_sub_base _ _ _ _ hy)), fun _ => Nat.le_refl _,
+            fun _ => hsome⟩
+        rcases hbase x hxb with h | h
+        · exact (hP'.2 x h hx').elim Or.inl (fun h => Or.inr (VDone.mono M h))
+        · exact Or.inl h
+      · intro v' values hs hv' hsubv hcover _ _ _ _ hres
         have hI := ih _ _ hres
-        have M2 := saveBatch_mono g roots fuel (g.group batch s st'.keyed)
-          { st' with visited := v', clean := st'.clean &&
-            ((g.group batch s st'.keyed).all (fun e => !(st'.visited.getD []).contains e && !roots.contains e)
-              && nodupB (g.group batch s st'.keyed)) }
-        have M1 : ∀ c : Bool, VMono st' { st' with visited := v', clean := st'.clean && c } := fun c =>
-          ⟨id, fun h => by simp only [Bool.and_eq_true] at h; exact h.1,
-            fun x hx => (hv' x).2 (Or.inr hx), fun _ => Nat.le_refl _⟩
-        have M := VMono.trans (M1 _) M2
-        refine ⟨fun m hm => Nat.le_trans (hP'.1 m hm) (M.2.2.2 m), fun x hx hx' => ?_⟩
+        have M := VMono.trans
+          (VMono.enter st' roots (visitBase fx.root batch st'.visited) values v'
+            (fun x hx => (hv' x).2 (Or.inr (visited_sub_base _ _ _ _ hx))) hs)
+          (saveBatch_mono fx g roots fuel values _)
+        refine ⟨fun m hm => Nat.le_trans (hP'.1 m hm) (M.2.2.2.1 m), fun x hx hx' => ?_⟩
         by_cases hx'' : x ∈ v'.getD []
-        · rcases (hv' x).1 hx'' with h | h
-          · exact hI.1 x h
-          · exact VDone.mono M (hP'.2 x h hx')
-        · exact hI.2 x hx hx''
+        · have hold : x ∈ visitBase fx.root batch st'.visited → x ∈ batch ∨ VDone g (saveBatch fx g roots fuel values
+              (st'.enter roots (visitBase fx.root batch st'.visited) values v')) x := by
+            intro hb
+            rcases hbase x hb with h | h
+            · exact (hP'.2 x h hx').elim Or.inl (fun h => Or.inr (VDone.mono M h))
+            · exact Or.inl h
+          rcases (hv' x).1 hx'' with h | h
+          · rcases hcover x h with h' | h'
+            · exact Or.inr (hI.1 x h')
+            · exact hold h'
+          · exact hold h
+        · exact Or.inr (hI.2 x hx (by rw [enter_visited]; exact hx''))
     · intro st' hP hok'
       exact hmove st' _ (VMono.log st' _ _) (fun _ h => h) (hP hok')
     · intro st' hP hok'
       exact hmove st' _ (VMono.log st' _ _) (fun _ h => h) (hP hok')
 
-theorem visit_complete (g : VGraph) (roots existing : List Nat) (n : Nat) :
-    VReach g roots n → 1 ≤ saveCount n (g.run roots existing).log := by
+theorem visit_complete (fx : VFix) (g : VGraph) (roots existing : List Nat) (n : Nat) :
+    VReach g roots n → 1 ≤ saveCount n (g.run fx roots existing).log := by
   intro hreach
-  have hok := visit_terminates g roots existing
+  have hok := visit_terminates fx g roots existing
   unfold VGraph.run at hok ⊢
-  have hc := saveBatch_complete g roots (g.size + 1) roots { keyed := existing } hok
-  have hdone : ∀ x, x ∈ roots ∨ x ∈ (saveBatch g roots (g.size + 1) roots { keyed := existing }).visited.getD [] →
-      VDone g (saveBatch g roots (g.size + 1) roots { keyed := existing }) x := by
+  have hc := saveBatch_complete fx g roots (g.size + 1) roots { keyed := existing } hok
+  have hdone : ∀ x, x ∈ roots ∨ x ∈ (saveBatch fx g roots (g.size + 1) roots { keyed := existing }).visited.getD [] →
+      VDone g (saveBatch fx g roots (g.size + 1) roots { keyed := existing }) x := by
     intro x hx
     rcases hx with h | h
     · exact hc.1 x h
     · exact hc.2 x h (by simp)
-  have : n ∈ roots ∨ n ∈ (saveBatch g roots (g.size + 1) roots { keyed := existing }).visited.getD [] := by
+  have : n ∈ roots ∨ n ∈ (saveBatch fx g roots (g.size + 1) roots { keyed := existing }).visited.getD [] := by
     induction hreach with
     | root h => exact Or.inl h
     | step _ hs ht ihm => exact Or.inr ((hdone _ ihm).2 _ hs _ ht)
@@ -709,17 +1083,17 @@ theorem visit_complete (g : VGraph) (roots existing : List Nat) (n : Nat) :
 
 /-! ## 6. soundness -/
 
-theorem saveBatch_sound (g : VGraph) (roots : List Nat) (hslots : g.nbefore ≤ g.nslots) :
+theorem saveBatch_sound (fx : VFix) (g : VGraph) (roots : List Nat) (hslots : g.nbefore ≤ g.nslots) :
     ∀ (fuel : Nat) (batch : List Nat) (st : VSt),
     (∀ m, m ∈ batch → VReach g roots m) → (∀ n, 1 ≤ saveCount n st.log → VReach g roots n) →
-    ∀ n, 1 ≤ saveCount n (saveBatch g roots fuel batch st).log → VReach g roots n := by
+    ∀ n, 1 ≤ saveCount n (saveBatch fx g roots fuel batch st).log → VReach g roots n := by
   intro fuel
   induction fuel with
   | zero => intro batch st _ h; exact h
   | succ fuel ih =>
     intro batch st hb hst
     refine saveBatch_succ_inv (fun st' => ∀ n, 1 ≤ saveCount n st'.log → VReach g roots n)
-      g roots fuel batch st ?_ ?_ ?_ ?_
+      fx g roots fuel batch st ?_ ?_ ?_ ?_
     · intro n
       simp only [saveCount_append, saveCount_before]
       intro h
@@ -730,35 +1104,427 @@ theorem saveBatch_sound (g : VGraph) (roots : List Nat) (hslots : g.nbefore ≤ 
     · intro st' s hs hP
       have hs' : s < g.nslots := by omega
       unfold slotStep
-      refine saveAssoc_cases _ _ _ _ (fun r => ∀ n, 1 ≤ saveCount n r.log → VReach g roots n) ?_ ?_ ?_
+      refine saveAssoc_cases _ _ _ _ _ _ (fun r => ∀ n, 1 ≤ saveCount n r.log → VReach g roots n) ?_ ?_ ?_
       · intro _; exact hP
-      · intro _ _ _; exact hP
-      · intro v' _ _
+      · intro _ _ _ _; exact hP
+      · intro v' values _ _ hsubv _ _ _ _ _
         refine ih _ _ ?_ hP
         intro e he
-        obtain ⟨m, hm, hme⟩ := (group_mem g batch s st'.keyed e).1 he
+        obtain ⟨m, hm, hme⟩ := (group_mem g batch s st'.keyed e).1 (hsubv e he)
         exact VReach.step (hb m hm) hs' hme
     · intro st' hP n
       simp only [saveCount_append, saveCount_stmt]; exact hP n
     · intro st' hP n
       simp only [saveCount_append, saveCount_after]; exact hP n
 
-theorem visit_sound (g : VGraph) (roots existing : List Nat) (n : Nat) (hslots : g.nbefore ≤ g.nslots) :
-    1 ≤ saveCount n (g.run roots existing).log → VReach g roots n := by
+theorem visit_sound (fx : VFix) (g : VGraph) (roots existing : List Nat) (n : Nat) (hslots : g.nbefore ≤ g.nslots) :
+    1 ≤ saveCount n (g.run fx roots existing).log → VReach g roots n := by
   unfold VGraph.run
-  exact saveBatch_sound g roots hslots (g.size + 1) roots { keyed := existing }
+  exact saveBatch_sound fx g roots hslots (g.size + 1) roots { keyed := existing }
     (fun m hm => VReach.root hm) (fun n h => by simp [saveCount] at h) n
 
 /-- without `nbefore ≤ nslots` soundness fails: the belongs-to loop runs slots `≥ nslots` too -/
 def visitG5 : VGraph := { size := 2, nbefore := 1, nslots := 0, adj := [[[1]], []], dedupe := [] }
 
 theorem visit_sound_needs_slots :
-    saveCount 1 (visitG5.run [0] []).log = 1 ∧ ¬ VReach visitG5 [0] 1 := by
+    saveCount 1 (visitG5.run {} [0] []).log = 1 ∧ ¬ VReach visitG5 [0] 1 := by
   refine ⟨by decide, ?_⟩
   intro h
   generalize hx : (1 : Nat) = x at h
   cases h with
   | root h => subst hx; simp at h
   | step _ hs _ => exact absurd hs (Nat.not_lt_zero _)
+
+/-! ## 7. the repairs: a repaired guard keeps its pattern flag true -/
+
+/-- F27 repaired (element-wise guard): no nested Create ever receives a record that is registered already -/
+theorem saveBatch_cleanMixed (fx : VFix) (hf : fx.filter = true) (g : VGraph) (roots : List Nat) :
+    ∀ (fuel : Nat) (batch : List Nat) (st : VSt), st.cleanMixed = true →
+    (saveBatch fx g roots fuel batch st).cleanMixed = true := by
+  intro fuel
+  induction fuel with
+  | zero => intro _ st h; exact h
+  | succ fuel ih =>
+    intro batch st h
+    refine saveBatch_succ_inv (fun st' => st'.cleanMixed = true) fx g roots fuel batch st h ?_ (fun _ h => h)
+      (fun _ h => h)
+    intro st' s _ hP
+    unfold slotStep
+    refine saveAssoc_cases _ _ _ _ _ _ (fun r => r.cleanMixed = true) (fun _ => hP) (fun _ _ _ _ => hP) ?_
+    intro v' values _ _ _ _ _ hfresh _ _
+    apply ih
+    simp only [VSt.enter, Bool.and_eq_true, List.all_eq_true, Bool.not_eq_true', List.contains_eq_mem,
+      decide_eq_false_iff_not]
+    exact ⟨hP, hfresh hf⟩
+
+/-- F27 or F29 repaired: no nested Create ever receives a record twice -/
+theorem saveBatch_cleanDup (fx : VFix) (hf : fx.filter = true ∨ fx.distinct = true) (g : VGraph) (roots : List Nat) :
+    ∀ (fuel : Nat) (batch : List Nat) (st : VSt), st.cleanDup = true →
+    (saveBatch fx g roots fuel batch st).cleanDup = true := by
+  intro fuel
+  induction fuel with
+  | zero => intro _ st h; exact h
+  | succ fuel ih =>
+    intro batch st h
+    refine saveBatch_succ_inv (fun st' => st'.cleanDup = true) fx g roots fuel batch st h ?_ (fun _ h => h)
+      (fun _ h => h)
+    intro st' s _ hP
+    unfold slotStep
+    refine saveAssoc_cases _ _ _ _ _ _ (fun r => r.cleanDup = true) (fun _ => hP) (fun _ _ _ _ => hP) ?_
+    intro v' values _ _ _ _ _ _ hnd _
+    apply ih
+    simp only [VSt.enter, Bool.and_eq_true, nodupB_iff]
+    exact ⟨hP, hnd hf⟩
+
+/-- the operation's own value is registered in every visit map that exists -/
+def RootsIn (roots : List Nat) (st : VSt) : Prop := ∀ V, st.visited = some V → ∀ r, r ∈ roots → r ∈ V
+
+/-- F28 repaired (the map is created with the statement's own value registered; the first statement that saves an
+    association is the operation's own): no nested Create ever receives an unregistered record of the operation's value -/
+theorem saveBatch_cleanRoot (fx : VFix) (hr : fx.root = true) (g : VGraph) (roots : List Nat) :
+    ∀ (fuel : Nat) (batch : List Nat) (st : VSt), st.cleanRoot = true → RootsIn roots st →
+    (st.visited = none → batch = roots) →
+    (saveBatch fx g roots fuel batch st).cleanRoot = true ∧ RootsIn roots (saveBatch fx g roots fuel batch st) := by
+  intro fuel
+  induction fuel with
+  | zero => intro _ st h h' _; exact ⟨h, h'⟩
+  | succ fuel ih =>
+    intro batch st h hin htop
+    have main := saveBatch_succ_inv
+      (fun st' => st'.cleanRoot = true ∧ RootsIn roots st' ∧ (st'.visited = none → batch = roots))
+      fx g roots fuel batch st ⟨h, hin, htop⟩ ?_ (fun _ h => h) (fun _ h => h)
+    · exact ⟨main.1, main.2.1⟩
+    intro st' s _ ⟨hc, hri, ht⟩
+    have hbase : ∀ r, r ∈ roots → r ∈ visitBase fx.root batch st'.visited := by
+      intro r hrr
+      apply (mem_visitBase _ _ _ _).2
+      cases hv : st'.visited with
+      | none => exact Or.inr ⟨rfl, hr, by rw [ht hv]; exact hrr⟩
+      | some V => exact Or.inl (by simpa using hri V hv r hrr)
+    have hnew : ∀ v' : Option (List Nat), v'.isSome = true →
+        (∀ x, x ∈ v'.getD [] ↔ x ∈ g.group batch s st'.keyed ∨ x ∈ visitBase fx.root batch st'.visited) →
+        ∀ V, v' = some V → ∀ r, r ∈ roots → r ∈ V := by
+      intro v' _ hv' V hV r hrr
+      have := (hv' r).2 (Or.inr (hbase r hrr))
+      simpa [hV] using this
+    unfold slotStep
+    refine saveAssoc_cases _ _ _ _ _ _
+      (fun r => r.cleanRoot = true ∧ RootsIn roots r ∧ (r.visited = none → batch = roots)) ?_ ?_ ?_
+    · intro _; exact ⟨hc, hri, ht⟩
+    · intro v' hs hv' _
+      exact ⟨hc, hnew v' hs hv', fun hn => by have hn' : v' = none := hn; subst hn'; simp at hs⟩
+    · intro v' values hs hv' _ _ _ _ _ _
+      have hres := ih values (st'.enter roots (visitBase fx.root batch st'.visited) values v') ?_ (hnew v' hs hv')
+        (fun hn => by have hn' : v' = none := hn; subst hn'; simp at hs)
+      · refine ⟨hres.1, hres.2, fun hn => ?_⟩
+        have := (saveBatch_mono fx g roots fuel values
+          (st'.enter roots (visitBase fx.root batch st'.visited) values v')).2.2.2.2 (by rw [enter_visited]; exact hs)
+        simp [hn] at this
+      · simp only [VSt.enter, Bool.and_eq_true, List.all_eq_true, Bool.not_eq_true', Bool.and_eq_false_iff,
+          List.contains_eq_mem, decide_eq_false_iff_not, Bool.not_eq_false', decide_eq_true_eq]
+        refine ⟨hc, fun e _ => ?_⟩
+        by_cases her : e ∈ roots
+        · exact Or.inr (hbase e her)
+        · exact Or.inl her
+
+theorem visit_cleanMixed (fx : VFix) (hf : fx.filter = true) (g : VGraph) (roots existing : List Nat) :
+    (g.run fx roots existing).cleanMixed = true :=
+  saveBatch_cleanMixed fx hf g roots _ _ _ rfl
+
+theorem visit_cleanDup (fx : VFix) (hf : fx.filter = true ∨ fx.distinct = true) (g : VGraph)
+    (roots existing : List Nat) : (g.run fx roots existing).cleanDup = true :=
+  saveBatch_cleanDup fx hf g roots _ _ _ rfl
+
+theorem visit_cleanRoot (fx : VFix) (hr : fx.root = true) (g : VGraph) (roots existing : List Nat) :
+    (g.run fx roots existing).cleanRoot = true :=
+  (saveBatch_cleanRoot fx hr g roots _ _ _ rfl (fun V h => by simp at h) (fun _ => rfl)).1
+
+/-- each repair discharges the hypothesis about its own pattern -/
+theorem visit_clean_of_fix (fx : VFix) (g : VGraph) (roots existing : List Nat)
+    (h1 : fx.filter = false → (g.run fx roots existing).cleanMixed = true)
+    (h2 : fx.root = false → (g.run fx roots existing).cleanRoot = true)
+    (h3 : fx.filter = false → fx.distinct = false → (g.run fx roots existing).cleanDup = true) :
+    (g.run fx roots existing).clean = true := by
+  have a : (g.run fx roots existing).cleanMixed = true := by
+    cases hf : fx.filter with
+    | false => exact h1 hf
+    | true => exact visit_cleanMixed fx hf g roots existing
+  have b : (g.run fx roots existing).cleanRoot = true := by
+    cases hr : fx.root with
+    | false => exact h2 hr
+    | true => exact visit_cleanRoot fx hr g roots existing
+  have c : (g.run fx roots existing).cleanDup = true := by
+    cases hf : fx.filter with
+    | true => exact visit_cleanDup fx (Or.inl hf) g roots existing
+    | false =>
+      cases hd : fx.distinct with
+      | true => exact visit_cleanDup fx (Or.inr hd) g roots existing
+      | false => exact h3 hf hd
+  simp [VSt.clean, a, b, c]
+
+/-! ## 8. conservativity: where the unrepaired traversal is clean, every repaired traversal does exactly the same -/
+
+theorem filterSaved_fresh_some (rf : Bool) (own : List Nat) (es V : List Nat) (hnd : es.Nodup)
+    (hfresh : ∀ e, e ∈ es → e ∉ V) : (filterSaved rf own es (some V)).1 = es := by
+  induction es generalizing V with
+  | nil => rfl
+  | cons e rest ih =>
+    have he : e ∉ V := hfresh e List.mem_cons_self
+    have hnd' := List.nodup_cons.1 hnd
+    have hstep : checkSavedR rf own [e] (some V) = (false, some (e :: V)) := by
+      simp [checkSavedR, checkSaved, loadOrStore, he]
+    simp only [filterSaved, hstep, Bool.false_eq_true, if_false]
+    rw [ih (e :: V) hnd'.2]
+    intro x hx hv
+    rcases List.mem_cons.1 hv with h | h
+    · subst h; exact hnd'.1 hx
+    · exact hfresh x (List.mem_cons_of_mem _ hx) h
+
+theorem filterSaved_fresh (rf : Bool) (own es : List Nat) (v : Option (List Nat)) (hnd : es.Nodup)
+    (hfresh : ∀ e, e ∈ es → e ∉ visitBase rf own v) : (filterSaved rf own es v).1 = es := by
+  cases v with
+  | some V => exact filterSaved_fresh_some rf own es V hnd (by simpa [visitBase] using hfresh)
+  | none =>
+    cases es with
+    | nil => rfl
+    | cons e rest =>
+      have he : e ∉ visitBase rf own none := hfresh e List.mem_cons_self
+      have hnd' := List.nodup_cons.1 hnd
+      have hsome := checkSavedR_isSome rf own [e] none
+      have hmem := fun x => checkSavedR_mem rf own [e] none x
+      have hld := checkSavedR_loaded rf own [e] none (by simp)
+      cases hc : checkSavedR rf own [e] none with
+      | mk ld v1 =>
+        rw [hc] at hsome hmem hld
+        cases v1 with
+        | none => simp at hsome
+        | some V1 =>
+          replace hmem : ∀ x, x ∈ V1 ↔ x = e ∨ x ∈ visitBase rf own none := fun x => by simpa using hmem x
+          have hl : ld = false := by simpa [he] using hld
+          subst hl
+          simp only [filterSaved, hc, Bool.false_eq_true, if_false]
+          rw [filterSaved_fresh_some rf own rest V1 hnd'.2]
+          intro x hx hv
+          rcases (hmem x).1 hv with h | h
+          · subst h; exact hnd'.1 hx
+          · exact hfresh x (List.mem_cons_of_mem _ hx) h
+
+theorem saveGuard_fresh (fx : VFix) (own elems : List Nat) (v : Option (List Nat)) (hnd : elems.Nodup)
+    (hfresh : ∀ e, e ∈ elems → e ∉ visitBase fx.root own v) : (saveGuard fx own elems v).1 = elems := by
+  unfold saveGuard
+  cases fx.filter with
+  | true => simpa using filterSaved_fresh fx.root own elems v hnd hfresh
+  | false => simp
+
+/-- every record registered: the (repaired or unrepaired) guard skips the list -/
+theorem saveAssoc_skip_eq (fx : VFix) (roots own : List Nat) (rec : List Nat → VSt → VSt) (elems : List Nat)
+    (st : VSt) (hne : elems ≠ []) (hall : ∀ e, e ∈ elems → e ∈ visitBase fx.root own st.visited) :
+    ∃ v' : Option (List Nat), saveAssoc fx roots own rec elems st = { st with visited := v' } ∧ v'.isSome = true ∧
+      ∀ x, x ∈ v'.getD [] ↔ x ∈ elems ∨ x ∈ visitBase fx.root own st.visited := by
+  obtain ⟨g1, g2, _, g4, _, _⟩ := saveGuard_spec fx own elems st.visited hne
+  have hr : (saveGuard fx own elems st.visited).2.1 = true := by
+    cases h : (saveGuard fx own elems st.visited).2.1 with
+    | true => rfl
+    | false =>
+      obtain ⟨k1, _, e, he1, he2⟩ := g4 h
+      exact absurd (hall e (k1 e he1)) he2
+  refine ⟨(saveGuard fx own elems st.visited).2.2, ?_, g1, g2⟩
+  unfold saveAssoc
+  have : elems.isEmpty = false := by cases elems with | nil => exact absurd rfl hne | cons _ _ => rfl
+  simp [this, hr]
+
+/-- a repetition-free list of unregistered records: the (repaired or unrepaired) guard hands exactly that list to the
+    nested Create -/
+theorem saveAssoc_fresh_eq (fx : VFix) (roots own : List Nat) (rec : List Nat → VSt → VSt) (elems : List Nat)
+    (st : VSt) (hne : elems ≠ []) (hnd : elems.Nodup)
+    (hfresh : ∀ e, e ∈ elems → e ∉ visitBase fx.root own st.visited) :
+    ∃ v' : Option (List Nat), saveAssoc fx roots own rec elems st =
+        rec elems (st.enter roots (visitBase fx.root own st.visited) elems v') ∧ v'.isSome = true ∧
+      ∀ x, x ∈ v'.getD [] ↔ x ∈ elems ∨ x ∈ visitBase fx.root own st.visited := by
+  obtain ⟨g1, g2, g3, _, _, _⟩ := saveGuard_spec fx own elems st.visited hne
+  have hr : (saveGuard fx own elems st.visited).2.1 = false := by
+    cases h : (saveGuard fx own elems st.visited).2.1 with
+    | false => rfl
+    | true =>
+      cases elems with
+      | nil => exact absurd rfl hne
+      | cons e rest => exact absurd (g3 h e List.mem_cons_self) (hfresh e List.mem_cons_self)
+  have hv := saveGuard_fresh fx own elems st.visited hnd hfresh
+  have hd : (if fx.distinct then distinctPtr elems [] else elems) = elems := by
+    cases fx.distinct with
+    | true => simpa using distinctPtr_of_nodup elems [] hnd (by simp)
+    | false => rfl
+  refine ⟨(saveGuard fx own elems st.visited).2.2, ?_, g1, g2⟩
+  unfold saveAssoc
+  have : elems.isEmpty = false := by cases elems with | nil => exact absurd rfl hne | cons _ _ => rfl
+  simp only [this, Bool.false_eq_true, if_false, hr, hv, hd]
+
+/-- two folds in lockstep; `good` (a property of the LEFT run) is known at the end and flows backwards -/
+theorem vfoldl_sim {α σ τ : Type} (R : σ → τ → Prop) (good : σ → Prop) (f : σ → α → σ) (f' : τ → α → τ)
+    (l : List α) (hback : ∀ s a, good (f s a) → good s)
+    (hstep : ∀ s t a, a ∈ l → R s t → good (f s a) → R (f s a) (f' t a)) :
+    ∀ s t, R s t → good (l.foldl f s) → R (l.foldl f s) (l.foldl f' t) := by
+  induction l with
+  | nil => intro s t h _; exact h
+  | cons a l ih =>
+    intro s t h hg
+    simp only [List.foldl_cons] at hg ⊢
+    have hga : good (f s a) := vfoldl_back good f l hback _ hg
+    exact ih (fun s t b hb => hstep s t b (List.mem_cons_of_mem _ hb)) _ _
+      (hstep s t a List.mem_cons_self h hga) hg
+
+/-- the two visit maps hold the same records, apart from the operation's own value, which the F28 repair registers
+    when the map is created -/
+def VisSim (fx : VFix) (roots : List Nat) (vo vn : Option (List Nat)) : Prop :=
+  (vo = none ∧ vn = none) ∨
+  (∃ Vo Vn, vo = some Vo ∧ vn = some Vn ∧ ∀ x, x ∈ Vn ↔ x ∈ Vo ∨ (fx.root = true ∧ x ∈ roots))
+
+/-- unrepaired run `so`, repaired run `sn`: same events, same keys, same fuel state, corresponding visit maps -/
+def VSim (fx : VFix) (roots : List Nat) (so sn : VSt) : Prop :=
+  so.log = sn.log ∧ so.keyed = sn.keyed ∧ so.ok = sn.ok ∧ VisSim fx roots so.visited sn.visited
+
+theorem VisSim.of_mem (fx : VFix) (roots : List Nat) (vo vn : Option (List Nat)) (ho : vo.isSome = true)
+    (hn : vn.isSome = true) (h : ∀ x, x ∈ vn.getD [] ↔ x ∈ vo.getD [] ∨ (fx.root = true ∧ x ∈ roots)) :
+    VisSim fx roots vo vn := by
+  cases vo with
+  | none => simp at ho
+  | some Vo =>
+    cases vn with
+    | none => simp at hn
+    | some Vn => exact Or.inr ⟨Vo, Vn, rfl, rfl, by simpa using h⟩
+
+/-- the bases of the two guards correspond -/
+theorem VisSim.base (fx : VFix) (roots batch : List Nat) (vo vn : Option (List Nat)) (h : VisSim fx roots vo vn)
+    (htop : vo = none → batch = roots) (x : Nat) :
+    x ∈ visitBase fx.root batch vn ↔ x ∈ visitBase false batch vo ∨ (fx.root = true ∧ x ∈ roots) := by
+  rcases h with ⟨h1, h2⟩ | ⟨Vo, Vn, h1, h2, h3⟩
+  · subst h1; subst h2
+    rw [htop rfl]
+    cases fx.root <;> simp [visitBase]
+  · subst h1; subst h2
+    simpa [visitBase] using h3 x
+
+theorem saveAssoc_sim (fx : VFix) (roots batch : List Nat) (recO recN : List Nat → VSt → VSt) (elems : List Nat)
+    (so sn : VSt) (hsim : VSim fx roots so sn) (htop : so.visited = none → batch = roots)
+    (hmonoO : ∀ b st, VMono st (recO b st))
+    (hrec : ∀ values so' sn', VSim fx roots so' sn' → so'.visited.isSome = true → (recO values so').clean = true →
+      VSim fx roots (recO values so') (recN values sn'))
+    (hclean : (saveAssoc {} roots batch recO elems so).clean = true) :
+    VSim fx roots (saveAssoc {} roots batch recO elems so) (saveAssoc fx roots batch recN elems sn) := by
+  obtain ⟨hlog, hkey, hok, hvis⟩ := hsim
+  have hbase := VisSim.base fx roots batch so.visited sn.visited hvis htop
+  by_cases hE : elems = []
+  · subst hE
+    simp only [saveAssoc, List.isEmpty_nil, if_true]
+    exact ⟨hlog, hkey, hok, hvis⟩
+  revert hclean
+  refine saveAssoc_cases _ _ _ _ _ _
+    (fun r => r.clean = true → VSim fx roots r (saveAssoc fx roots batch recN elems sn)) ?_ ?_ ?_
+  · intro h; exact absurd h hE
+  · -- the unrepaired guard skipped: everything was registered, so it is for the repaired guard
+    intro v' hs hv' hall _
+    obtain ⟨w, hw1, hw2, hw3⟩ := saveAssoc_skip_eq fx roots batch recN elems sn hE
+      (fun e he => (hbase e).2 (Or.inl (hall e he)))
+    rw [hw1]
+    refine ⟨hlog, hkey, hok, VisSim.of_mem fx roots v' w hs hw2 (fun x => ?_)⟩
+    rw [hw3, hv', hbase]
+    constructor
+    · rintro (h | h | h)
+      · exact Or.inl (Or.inl h)
+      · exact Or.inl (Or.inr h)
+      · exact Or.inr h
+    · rintro ((h | h) | h)
+      · exact Or.inl h
+      · exact Or.inr (Or.inl h)
+      · exact Or.inr (Or.inr h)
+  · -- the unrepaired guard created the whole list; the run stays clean, so the list was fresh and repetition-free
+    intro v' values hs hv' _ _ _ _ _ hval hres
+    have hval' : values = elems := hval rfl rfl
+    subst hval'
+    have hc := (hmonoO _ _).clean hres
+    obtain ⟨_, hall, hnd⟩ := enter_clean _ _ _ _ _ hc
+    have hfresh : ∀ e, e ∈ values → e ∉ visitBase fx.root batch sn.visited := by
+      intro e he hb
+      rcases (hbase e).1 hb with h | ⟨_, h⟩
+      · exact (hall e he).1 h
+      · exact (hall e he).2 h
+    obtain ⟨w, hw1, hw2, hw3⟩ := saveAssoc_fresh_eq fx roots batch recN values sn hE hnd hfresh
+    rw [hw1]
+    refine hrec values _ _ ⟨hlog, hkey, hok, VisSim.of_mem fx roots v' w hs hw2 (fun x => ?_)⟩ hs hres
+    rw [hw3, hv', hbase]
+    constructor
+    · rintro (h | h | h)
+      · exact Or.inl (Or.inl h)
+      · exact Or.inl (Or.inr h)
+      · exact Or.inr h
+    · rintro ((h | h) | h)
+      · exact Or.inl h
+      · exact Or.inr (Or.inl h)
+      · exact Or.inr (Or.inr h)
+
+theorem saveBatch_sim (fx : VFix) (g : VGraph) (roots : List Nat) : ∀ (fuel : Nat) (batch : List Nat) (so sn : VSt),
+    VSim fx roots so sn → (so.visited = none → batch = roots) →
+    (saveBatch {} g roots fuel batch so).clean = true →
+    VSim fx roots (saveBatch {} g roots fuel batch so) (saveBatch fx g roots fuel batch sn) := by
+  intro fuel
+  induction fuel with
+  | zero =>
+    intro batch so sn h _ _
+    exact ⟨h.1, h.2.1, rfl, h.2.2.2⟩
+  | succ fuel ih =>
+    intro batch so sn hsim htop hclean
+    -- the relation carried through the two slot loops
+    let R : VSt → VSt → Prop := fun a b => VSim fx roots a b ∧ (a.visited = none → batch = roots)
+    have hback : ∀ (a : VSt) (s : Nat), (slotStep {} g roots fuel batch a s).clean = true → a.clean = true :=
+      fun a s h => (slotStep_mono {} g roots fuel batch a s).clean h
+    have hstep : ∀ (a b : VSt) (s : Nat), R a b → (slotStep {} g roots fuel batch a s).clean = true →
+        R (slotStep {} g roots fuel batch a s) (slotStep fx g roots fuel batch b s) := by
+      intro a b s ⟨hab, hta⟩ hc
+      refine ⟨?_, fun hn => ?_⟩
+      · unfold slotStep at hc ⊢
+        rw [← hab.2.1]
+        exact saveAssoc_sim fx roots batch _ _ _ a b hab hta (fun b st => saveBatch_mono {} g roots fuel b st)
+          (fun values so' sn' h hs hc' => ih values so' sn' h (fun hn => by simp [hn] at hs) hc') hc
+      · apply hta
+        have hm := (slotStep_mono {} g roots fuel batch a s).2.2.2.2
+        cases hv : a.visited with
+        | none => rfl
+        | some V => simp [hv, hn] at hm
+    rw [saveBatch_succ] at hclean
+    rw [saveBatch_succ, saveBatch_succ]
+    simp only [] at hclean ⊢
+    -- the clean flag known at the end flows back through the second loop to the end of the first
+    have hc4 := hclean
+    have hc3 := (slotLoop_mono {} g roots fuel batch _ _).clean hc4
+    have h1 : R { so with log := so.log ++ batch.map VEv.before } { sn with log := sn.log ++ batch.map VEv.before } :=
+      ⟨⟨by simp [hsim.1], hsim.2.1, hsim.2.2.1, hsim.2.2.2⟩, htop⟩
+    have h2 := vfoldl_sim R (fun a => a.clean = true) _ _ (List.range g.nbefore) hback
+      (fun a b s _ h hc => hstep a b s h hc) _ _ h1 hc3
+    have h3 : R { ((List.range g.nbefore).foldl (slotStep {} g roots fuel batch)
+          { so with log := so.log ++ batch.map VEv.before }) with
+          log := ((List.range g.nbefore).foldl (slotStep {} g roots fuel batch)
+            { so with log := so.log ++ batch.map VEv.before }).log ++ [VEv.stmt batch],
+          keyed := batch ++ ((List.range g.nbefore).foldl (slotStep {} g roots fuel batch)
+            { so with log := so.log ++ batch.map VEv.before }).keyed }
+        { ((List.range g.nbefore).foldl (slotStep fx g roots fuel batch)
+          { sn with log := sn.log ++ batch.map VEv.before }) with
+          log := ((List.range g.nbefore).foldl (slotStep fx g roots fuel batch)
+            { sn with log := sn.log ++ batch.map VEv.before }).log ++ [VEv.stmt batch],
+          keyed := batch ++ ((List.range g.nbefore).foldl (slotStep fx g roots fuel batch)
+            { sn with log := sn.log ++ batch.map VEv.before }).keyed } :=
+      ⟨⟨by simp [h2.1.1], by simp [h2.1.2.1], h2.1.2.2.1, h2.1.2.2.2⟩, h2.2⟩
+    have h4 := vfoldl_sim R (fun a => a.clean = true) _ _ ((List.range (g.nslots - g.nbefore)).map (· + g.nbefore))
+      hback (fun a b s _ h hc => hstep a b s h hc) _ _ h3 hc4
+    exact ⟨by simp [h4.1.1], h4.1.2.1, h4.1.2.2.1, h4.1.2.2.2⟩
+
+/-- on every graph on which the unrepaired traversal shows none of the three patterns, every repaired traversal
+    produces the SAME event log: the same nested Creates over the same record lists in the same order (hence the same
+    statements and the same table contents), the same hooks -/
+theorem visit_fix_conservative (fx : VFix) (g : VGraph) (roots existing : List Nat)
+    (hclean : (g.run {} roots existing).clean = true) :
+    (g.run fx roots existing).log = (g.run {} roots existing).log := by
+  unfold VGraph.run at hclean ⊢
+  exact (saveBatch_sim fx g roots (g.size + 1) roots { keyed := existing } { keyed := existing }
+    ⟨rfl, rfl, rfl, Or.inl ⟨rfl, rfl⟩⟩ (fun _ => rfl) hclean).1.symm
 
 end Gorm
